@@ -172,10 +172,17 @@ type Ctx struct {
 	// definitional side constraints (e.g. for OFBits of computed floats), boolean terms
 	Defs []*Term
 	nfb  int
+	// subst: terms concretised on this path (t -> constant), applied by constructors
+	subst map[*Term]*Term
+	// path-sensitive interval knowledge (see IV)
+	facts  map[*Term]IV     // permanent (e.g. merged callee results)
+	over   map[*Term]IV     // scoped to the current path / merge run
+	neq    map[*Term][]*big.Int
+	ivMemo map[*Term]IV
 }
 
 func NewCtx() *Ctx {
-	return &Ctx{tab: map[string]*Term{}, varBy: map[string]*Term{}}
+	return &Ctx{tab: map[string]*Term{}, varBy: map[string]*Term{}, subst: map[*Term]*Term{}, facts: map[*Term]IV{}, over: map[*Term]IV{}, neq: map[*Term][]*big.Int{}, ivMemo: map[*Term]IV{}}
 }
 
 func (c *Ctx) intern(t *Term) *Term {
@@ -323,6 +330,16 @@ func (c *Ctx) Var(name string, s Sort) *Term {
 
 // ---------- helpers
 
+func (c *Ctx) sub(t *Term) *Term {
+	if len(c.subst) == 0 {
+		return t
+	}
+	if r, ok := c.subst[t]; ok {
+		return r
+	}
+	return t
+}
+
 func (c *Ctx) mk(op Op, s Sort, args ...*Term) *Term {
 	t := &Term{Op: op, Sort: s, Args: args}
 	return t
@@ -381,6 +398,7 @@ func rawIv(op Op, a, b *Term) (lo, hi *big.Int) {
 // ---------- integer arithmetic
 
 func (c *Ctx) Arith(op Op, a, b *Term) *Term {
+	a, b = c.sub(a), c.sub(b)
 	if a.Sort != b.Sort {
 		panic(fmt.Sprintf("arith sort mismatch %v %v (%v %v)", a.Sort, b.Sort, a, b))
 	}
@@ -433,6 +451,7 @@ func (c *Ctx) Arith(op Op, a, b *Term) *Term {
 }
 
 func (c *Ctx) Neg(a *Term) *Term {
+	a = c.sub(a)
 	if a.IsConst() {
 		return c.Int(a.Sort, new(big.Int).Neg(a.V))
 	}
@@ -447,6 +466,7 @@ func truncRem(a, b *big.Int) *big.Int { return new(big.Int).Rem(a, b) }
 
 // Div/Rem: Go semantics (truncated).  Caller has established b != 0 on this path.
 func (c *Ctx) Div(a, b *Term) *Term {
+	a, b = c.sub(a), c.sub(b)
 	s := a.Sort
 	if a.IsConst() && b.IsConst() && b.V.Sign() != 0 {
 		return c.Int(s, truncDiv(a.V, b.V))
@@ -470,6 +490,7 @@ func (c *Ctx) Div(a, b *Term) *Term {
 }
 
 func (c *Ctx) Rem(a, b *Term) *Term {
+	a, b = c.sub(a), c.sub(b)
 	s := a.Sort
 	if a.IsConst() && b.IsConst() && b.V.Sign() != 0 {
 		return c.Int(s, truncRem(a.V, b.V))
@@ -652,6 +673,7 @@ func (c *Ctx) Extract(t *Term, hi, lo int) *Term {
 
 // Conv converts integer t to sort s (Go conversion semantics).
 func (c *Ctx) Conv(t *Term, s Sort) *Term {
+	t = c.sub(t)
 	if t.Sort == s {
 		return t
 	}
@@ -714,6 +736,7 @@ func isContigMask(v *big.Int) (hi, lo int, ok bool) {
 }
 
 func (c *Ctx) Bitop(op Op, a, b *Term) *Term {
+	a, b = c.sub(a), c.sub(b)
 	if a.Sort != b.Sort {
 		panic(fmt.Sprintf("bitop sort mismatch %v %v", a.Sort, b.Sort))
 	}
@@ -845,6 +868,7 @@ func (c *Ctx) BitNot(a *Term) *Term {
 
 // Shift: a << b or a >> b; b is any unsigned (or non-negative) integer term.
 func (c *Ctx) Shift(op Op, a, b *Term) *Term {
+	a, b = c.sub(a), c.sub(b)
 	s := a.Sort
 	if bc, ok := b.ConstInt64(); ok {
 		if bc == 0 {
@@ -960,6 +984,7 @@ func (c *Ctx) Or(a, b *Term) *Term {
 }
 
 func (c *Ctx) Eq(a, b *Term) *Term {
+	a, b = c.sub(a), c.sub(b)
 	if a.Sort != b.Sort {
 		panic(fmt.Sprintf("eq sort mismatch %v %v: %v %v", a.Sort, b.Sort, a, b))
 	}
@@ -985,8 +1010,12 @@ func (c *Ctx) Eq(a, b *Term) *Term {
 		return c.intern(c.mk(OEq, SBool, a, b))
 	}
 	if a.Sort.K == KInt {
-		if a.IHi.Cmp(b.ILo) < 0 || b.IHi.Cmp(a.ILo) < 0 {
+		ia, ib := c.IV(a), c.IV(b)
+		if ia.Hi.Cmp(ib.Lo) < 0 || ib.Hi.Cmp(ia.Lo) < 0 {
 			return c.Bool(false)
+		}
+		if ia.Lo.Cmp(ia.Hi) == 0 && ib.Lo.Cmp(ib.Hi) == 0 && ia.Lo.Cmp(ib.Lo) == 0 {
+			return c.Bool(true)
 		}
 		// concat == const / concat==concat with same shapes: split piecewise (helps byte compare)
 	}
@@ -1000,38 +1029,43 @@ func (c *Ctx) Eq(a, b *Term) *Term {
 }
 
 func (c *Ctx) Lt(a, b *Term) *Term {
+	a, b = c.sub(a), c.sub(b)
 	if a.Sort != b.Sort {
 		panic(fmt.Sprintf("lt sort mismatch %v %v", a.Sort, b.Sort))
 	}
 	if a == b {
 		return c.Bool(false)
 	}
-	if a.IHi.Cmp(b.ILo) < 0 {
+	ia, ib := c.IV(a), c.IV(b)
+	if ia.Hi.Cmp(ib.Lo) < 0 {
 		return c.Bool(true)
 	}
-	if a.ILo.Cmp(b.IHi) >= 0 {
+	if ia.Lo.Cmp(ib.Hi) >= 0 {
 		return c.Bool(false)
 	}
 	return c.intern(c.mk(OLt, SBool, a, b))
 }
 
 func (c *Ctx) Le(a, b *Term) *Term {
+	a, b = c.sub(a), c.sub(b)
 	if a.Sort != b.Sort {
 		panic(fmt.Sprintf("le sort mismatch %v %v", a.Sort, b.Sort))
 	}
 	if a == b {
 		return c.Bool(true)
 	}
-	if a.IHi.Cmp(b.ILo) <= 0 {
+	ia, ib := c.IV(a), c.IV(b)
+	if ia.Hi.Cmp(ib.Lo) <= 0 {
 		return c.Bool(true)
 	}
-	if a.ILo.Cmp(b.IHi) > 0 {
+	if ia.Lo.Cmp(ib.Hi) > 0 {
 		return c.Bool(false)
 	}
 	return c.intern(c.mk(OLe, SBool, a, b))
 }
 
 func (c *Ctx) Ite(cond, a, b *Term) *Term {
+	cond, a, b = c.sub(cond), c.sub(a), c.sub(b)
 	if cond.IsConst() {
 		if cond.V.Sign() != 0 {
 			return a
@@ -1263,6 +1297,11 @@ func (c *Ctx) Zero(s Sort) *Term {
 // TightenVar narrows a variable's interval (sound only while the corresponding constraint
 // is on the path condition, which the caller guarantees).
 func (c *Ctx) tighten(cond *Term) {
+	c.Learn(cond)
+	return
+}
+
+func (c *Ctx) tightenOld(cond *Term) {
 	switch cond.Op {
 	case OBAnd:
 		c.tighten(cond.Args[0])
@@ -1306,4 +1345,253 @@ func (c *Ctx) tighten(cond *Term) {
 			}
 		}
 	}
+}
+
+// ---------------------------------------------------------------- path-sensitive intervals
+
+// IV is a closed interval of mathematical integers.
+type IV struct{ Lo, Hi *big.Int }
+
+func (a IV) meet(b IV) IV {
+	return IV{maxBig(a.Lo, b.Lo), minBig(a.Hi, b.Hi)}
+}
+func (a IV) join(b IV) IV {
+	return IV{minBig(a.Lo, b.Lo), maxBig(a.Hi, b.Hi)}
+}
+func (a IV) empty() bool { return a.Lo.Cmp(a.Hi) > 0 }
+
+func sortIV(s Sort) IV { return IV{s.Min(), s.Max()} }
+
+func clampIV(s Sort, v IV) IV {
+	if v.Lo.Cmp(s.Min()) >= 0 && v.Hi.Cmp(s.Max()) <= 0 {
+		return v
+	}
+	return sortIV(s)
+}
+
+// IV returns the tightest interval known for t on the current path: the node's own
+// context-free interval met with permanent facts, scoped overrides learned from branch
+// conditions, and the interval re-derived from the operands' current intervals.
+func (c *Ctx) IV(t *Term) IV {
+	if t.Sort.K != KInt {
+		return IV{bigZero, bigOne}
+	}
+	if t.Op == OConst {
+		return IV{t.V, t.V}
+	}
+	if len(c.over) == 0 && len(c.facts) == 0 && len(c.neq) == 0 {
+		return IV{t.ILo, t.IHi}
+	}
+	if v, ok := c.ivMemo[t]; ok {
+		return v
+	}
+	v := IV{t.ILo, t.IHi}
+	if f, ok := c.facts[t]; ok {
+		v = v.meet(f)
+	}
+	if o, ok := c.over[t]; ok {
+		v = v.meet(o)
+	}
+	if len(t.Args) > 0 && t.Op != OVar {
+		if d, ok := c.derive(t); ok {
+			v = v.meet(d)
+		}
+	}
+	// trim boundary disequalities
+	if ns, ok := c.neq[t]; ok {
+		for changed := true; changed; {
+			changed = false
+			for _, n := range ns {
+				if v.Lo.Cmp(v.Hi) < 0 && n.Cmp(v.Lo) == 0 {
+					v.Lo = new(big.Int).Add(v.Lo, bigOne)
+					changed = true
+				}
+				if v.Lo.Cmp(v.Hi) < 0 && n.Cmp(v.Hi) == 0 {
+					v.Hi = new(big.Int).Sub(v.Hi, bigOne)
+					changed = true
+				}
+			}
+		}
+	}
+	if v.empty() {
+		// contradictory knowledge: we are on an infeasible guard; stay sound with the node's own interval
+		v = IV{t.ILo, t.IHi}
+	}
+	c.ivMemo[t] = v
+	return v
+}
+
+func (c *Ctx) ivChanged() { c.ivMemo = map[*Term]IV{} }
+
+// derive recomputes t's interval from the current intervals of its operands.
+func (c *Ctx) derive(t *Term) (IV, bool) {
+	s := t.Sort
+	switch t.Op {
+	case OAdd, OSub, OMul:
+		a, b := c.IV(t.Args[0]), c.IV(t.Args[1])
+		var lo, hi *big.Int
+		switch t.Op {
+		case OAdd:
+			lo, hi = new(big.Int).Add(a.Lo, b.Lo), new(big.Int).Add(a.Hi, b.Hi)
+		case OSub:
+			lo, hi = new(big.Int).Sub(a.Lo, b.Hi), new(big.Int).Sub(a.Hi, b.Lo)
+		default:
+			p1 := new(big.Int).Mul(a.Lo, b.Lo)
+			p2 := new(big.Int).Mul(a.Lo, b.Hi)
+			p3 := new(big.Int).Mul(a.Hi, b.Lo)
+			p4 := new(big.Int).Mul(a.Hi, b.Hi)
+			lo, hi = minBig(p1, p2, p3, p4), maxBig(p1, p2, p3, p4)
+		}
+		return clampIV(s, IV{lo, hi}), true
+	case ONeg:
+		a := c.IV(t.Args[0])
+		return clampIV(s, IV{new(big.Int).Neg(a.Hi), new(big.Int).Neg(a.Lo)}), true
+	case ODiv:
+		a, b := c.IV(t.Args[0]), c.IV(t.Args[1])
+		if b.Lo.Sign() > 0 {
+			q1 := truncDiv(a.Lo, b.Lo)
+			q2 := truncDiv(a.Lo, b.Hi)
+			q3 := truncDiv(a.Hi, b.Lo)
+			q4 := truncDiv(a.Hi, b.Hi)
+			return clampIV(s, IV{minBig(q1, q2, q3, q4), maxBig(q1, q2, q3, q4)}), true
+		}
+		m := maxBig(new(big.Int).Abs(a.Lo), new(big.Int).Abs(a.Hi))
+		return clampIV(s, IV{new(big.Int).Neg(m), m}), true
+	case ORem:
+		a, b := c.IV(t.Args[0]), c.IV(t.Args[1])
+		mb := new(big.Int).Sub(maxBig(new(big.Int).Abs(b.Lo), new(big.Int).Abs(b.Hi)), bigOne)
+		if mb.Sign() < 0 {
+			mb = big.NewInt(0)
+		}
+		ma := maxBig(new(big.Int).Abs(a.Lo), new(big.Int).Abs(a.Hi))
+		m := minBig(mb, ma)
+		lo, hi := new(big.Int).Neg(m), m
+		if a.Lo.Sign() >= 0 {
+			lo = big.NewInt(0)
+		}
+		if a.Hi.Sign() <= 0 {
+			hi = big.NewInt(0)
+		}
+		return clampIV(s, IV{lo, hi}), true
+	case OConv:
+		return clampIV(s, c.IV(t.Args[0])), true
+	case OIte:
+		return c.IV(t.Args[1]).join(c.IV(t.Args[2])), true
+	case OExtract:
+		a := c.IV(t.Args[0])
+		w := t.Hi - t.Lo + 1
+		full := IV{bigZero, new(big.Int).Sub(pow2(w), bigOne)}
+		if t.Lo == 0 && a.Lo.Sign() >= 0 && a.Hi.Cmp(full.Hi) <= 0 {
+			return a, true
+		}
+		return full, true
+	case OShr:
+		if bc, ok := t.Args[1].ConstInt64(); ok && bc < 200 {
+			a := c.IV(t.Args[0])
+			return IV{new(big.Int).Rsh(a.Lo, uint(bc)), new(big.Int).Rsh(a.Hi, uint(bc))}, true
+		}
+	}
+	return IV{}, false
+}
+
+// Learn records interval knowledge implied by cond being true (scoped: callers save and
+// restore c.over / c.neq around guarded regions).
+func (c *Ctx) Learn(cond *Term) {
+	switch cond.Op {
+	case OBAnd:
+		c.Learn(cond.Args[0])
+		c.Learn(cond.Args[1])
+	case OLt:
+		c.learnLe(cond.Args[0], cond.Args[1], true)
+	case OLe:
+		c.learnLe(cond.Args[0], cond.Args[1], false)
+	case OEq:
+		a, b := cond.Args[0], cond.Args[1]
+		if a.Sort.K == KInt {
+			m := c.IV(a).meet(c.IV(b))
+			if !m.empty() {
+				c.setOver(a, m)
+				c.setOver(b, m)
+			}
+		}
+	case OBNot:
+		in := cond.Args[0]
+		switch in.Op {
+		case OLt: // !(a<b) == b<=a
+			c.learnLe(in.Args[1], in.Args[0], false)
+		case OLe: // !(a<=b) == b<a
+			c.learnLe(in.Args[1], in.Args[0], true)
+		case OEq:
+			a, b := in.Args[0], in.Args[1]
+			if a.Sort.K == KInt {
+				if b.IsConst() && !a.IsConst() {
+					c.neq[a] = append(c.neq[a], b.V)
+					c.ivChanged()
+				} else if a.IsConst() && !b.IsConst() {
+					c.neq[b] = append(c.neq[b], a.V)
+					c.ivChanged()
+				}
+			}
+		case OBOr: // !(x||y) == !x && !y
+			c.Learn(c.Not(in.Args[0]))
+			c.Learn(c.Not(in.Args[1]))
+		}
+	}
+}
+
+func (c *Ctx) learnLe(a, b *Term, strict bool) {
+	if a.Sort.K != KInt {
+		return
+	}
+	ia, ib := c.IV(a), c.IV(b)
+	// a <= b (or a < b): hi(a) <= hi(b) [-1], lo(b) >= lo(a) [+1]
+	hb := ib.Hi
+	la := ia.Lo
+	if strict {
+		hb = new(big.Int).Sub(hb, bigOne)
+		la = new(big.Int).Add(la, bigOne)
+	}
+	if !a.IsConst() && hb.Cmp(ia.Hi) < 0 && hb.Cmp(ia.Lo) >= 0 {
+		c.setOver(a, IV{ia.Lo, hb})
+	}
+	if !b.IsConst() && la.Cmp(ib.Lo) > 0 && la.Cmp(ib.Hi) <= 0 {
+		c.setOver(b, IV{la, ib.Hi})
+	}
+}
+
+func (c *Ctx) setOver(t *Term, v IV) {
+	if t.IsConst() {
+		return
+	}
+	if o, ok := c.over[t]; ok {
+		v = v.meet(o)
+		if v.empty() {
+			return
+		}
+	}
+	c.over[t] = v
+	c.ivChanged()
+}
+
+// saveScope / restoreScope bracket a guarded region (merge-mode run).
+type ivScope struct {
+	over map[*Term]IV
+	neq  map[*Term][]*big.Int
+}
+
+func (c *Ctx) saveScope() ivScope {
+	o := make(map[*Term]IV, len(c.over))
+	for k, v := range c.over {
+		o[k] = v
+	}
+	n := make(map[*Term][]*big.Int, len(c.neq))
+	for k, v := range c.neq {
+		n[k] = v[:len(v):len(v)]
+	}
+	return ivScope{o, n}
+}
+
+func (c *Ctx) restoreScope(s ivScope) {
+	c.over, c.neq = s.over, s.neq
+	c.ivChanged()
 }
